@@ -185,7 +185,7 @@ Proof.
   exists W5, (rev r4_votes_oldest_first), (2, 21), 22. split; [exact W5_ok|]. split.
   - unfold r4_votes_oldest_first. cbn [rev app]. cbn [hist_ok_with].
     do 3 (split; [intros _; cbn [rule_at_no_r4 v_kind v_slot v_signer]; split; [reflexivity|]; split; [vc|];
-                  split; [right; vc|]; exists (1, 11); split; [reflexivity | vc] |]).
+                  split; [right; vc|]; exists (1, 11); split; [reflexivity | left; vc] |]).
     do 5 (split; [nd_notar_later 11|]).
     do 5 (split; [nd_notar_later 0|]).
     exact I.
